@@ -25,6 +25,7 @@ theorem assignField_len (h : Heap) (r : Nat) (fld : Field) :
   cases fld <;> simp only [assignField] <;> first
     | exact modV_len h r _
     | exact setOrder_len h r _
+    | exact setArr_len h r _ _
 
 theorem setItem0_len (h h' : Heap) (r : Nat) (x : Int) (hs : h.setItem0 r x = some h') :
     h'.sys.length = h.sys.length := by
@@ -34,6 +35,20 @@ theorem setItem0_len (h h' : Heap) (r : Nat) (x : Int) (hs : h.setItem0 r x = so
     · cases hs
     · injection hs with hs; subst hs; simp
   · cases hs
+
+theorem setArrItem_len (h h' : Heap) (r : Nat) (a : Arr) (x : Int) (hs : h.setArrItem r a x = some h') :
+    h'.sys.length = h.sys.length := by
+  unfold Heap.setArrItem at hs
+  split at hs
+  · injection hs with hs; subst hs; simp
+  · cases hs
+
+theorem updGo_len (ekin vpot : List Int) : ∀ (rs : List Nat) (i : Nat) (h : Heap),
+    (updGo ekin vpot i h rs).sys.length = h.sys.length := by
+  intro rs
+  induction rs with
+  | nil => intro i h; rfl
+  | cons r rs ih => intro i h; simp only [updGo]; rw [ih, modV_len]
 
 theorem assignPField_frames (p : Path) (f : PField) : (assignPField p f).frames = p.frames := by
   cases f <;> rfl
@@ -94,7 +109,8 @@ theorem step_wf (m : Machine) (op : Op) (hm : m.WFm) : (m.step op).WFm := by
       simp only [Machine.say, Heap.alloc]
       have hpm : p ∈ m.paths := List.mem_of_getElem? hp
       have hmono : ∀ rs, WF m.heap rs →
-          WF (Heap.mk (m.heap.sys ++ [Sys.mk v m.heap.nOrd]) (m.heap.nOrd + 1)) rs :=
+          WF (Heap.mk (m.heap.sys ++ [Sys.mk v m.heap.nOrd (m.heap.nOrd + 1) (m.heap.nOrd + 2) (m.heap.nOrd + 3)
+            (m.heap.nOrd + 4)]) (m.heap.nOrd + 5)) rs :=
         fun rs h => WF_mono _ _ rs (by simp) h
       apply wfm_set
       · exact fun q hq => hmono _ (hm q hq)
@@ -322,6 +338,84 @@ theorem step_wf (m : Machine) (op : Op) (hm : m.WFm) : (m.step op).WFm := by
     | some p =>
       simp only [Machine.say]
       exact wfm_snoc _ _ _ hm (fun r hr => by simp [Path.empty] at hr)
+  | newSub ml t c =>
+    simp only [Machine.step, Machine.say]
+    exact wfm_snoc _ _ _ hm (fun r hr => by simp [Path.empty] at hr)
+  | pattr i k =>
+    simp only [Machine.step]
+    cases hp : m.paths[i]? with
+    | none => exact hm
+    | some p => exact hm
+  | eq i j =>
+    simp only [Machine.step]
+    cases hp : m.paths[i]? with
+    | none => exact hm
+    | some p =>
+      cases hq : m.paths[j]? with
+      | none => exact hm
+      | some q => exact hm
+  | ne i j =>
+    simp only [Machine.step]
+    cases hp : m.paths[i]? with
+    | none => exact hm
+    | some p =>
+      cases hq : m.paths[j]? with
+      | none => exact hm
+      | some q => exact hm
+  | shoot i u =>
+    simp only [Machine.step]
+    cases hp : m.paths[i]? with
+    | none => exact hm
+    | some p =>
+      simp only
+      split
+      · exact hm
+      · split <;> exact hm
+  | upd i ekin vpot =>
+    simp only [Machine.step]
+    cases hp : m.paths[i]? with
+    | none => exact hm
+    | some p =>
+      simp only [Machine.say, updateEnergies]
+      exact fun x hx => WF_mono _ _ _ (by rw [updGo_len]; exact Nat.le_refl _) (hm x hx)
+  | emptyDef i ml t =>
+    simp only [Machine.step]
+    cases hp : m.paths[i]? with
+    | none => exact hm
+    | some p =>
+      simp only [Machine.say]
+      exact wfm_snoc _ _ _ hm (fun r hr => by simp [Path.emptyPath, Path.empty] at hr)
+  | setArrItem i k a x =>
+    simp only [Machine.step]
+    cases hp : m.paths[i]? with
+    | none => exact hm
+    | some p =>
+      simp only
+      cases hr : p.frames[k]? with
+      | none => exact hm
+      | some r =>
+        simp only
+        cases hs : m.heap.setArrItem r a x with
+        | none => exact hm
+        | some h1 =>
+          simp only [Machine.say]
+          exact fun y hy => WF_mono _ _ _ (by rw [setArrItem_len _ _ _ _ _ hs]; exact Nat.le_refl _) (hm y hy)
+  | adr i =>
+    simp only [Machine.step]
+    cases hp : m.paths[i]? with
+    | none => exact hm
+    | some p => exact hm
+  | revVel i k =>
+    simp only [Machine.step]
+    cases hp : m.paths[i]? with
+    | none => exact hm
+    | some p =>
+      simp only
+      cases hr : p.frames[k]? with
+      | none => exact hm
+      | some r =>
+        simp only [Machine.say, Heap.reverseVelocities]
+        exact fun x hx => WF_mono _ _ _ (by rw [modV_len]; exact Nat.le_refl _) (hm x hx)
 
 theorem run_wf (ops : List Op) : ∀ (m : Machine), m.WFm → (m.run ops).WFm := by
   induction ops with
